@@ -201,37 +201,56 @@ def find_result(res, harness):
     return None, None
 
 
-def kani_playback(ws, pkg, features, harness, timeout=900):
-    """Re-run one failed harness with concrete playback, then execute the generated
-    unit test natively (cargo kani playback) against the real code. Returns dict."""
+def kani_playback(ws, pkg, features, harness, modspecs=(), timeout=900):
+    """Re-run one failed harness with `--concrete-playback=print`, splice the generated unit test into the
+    appended harness module of the scratch copy and execute it natively (`cargo kani playback`): the real
+    function runs on the counterexample outside the verifier. Returns dict."""
     info = {"harness": harness, "concrete_values": None, "generated_test": None, "native_replay": None}
     cmd = ["cargo", "kani", "-p", pkg] + (["--features", features] if features else []) + KANI_FLAGS + \
-          ["-Z", "concrete-playback", "--concrete-playback=inplace", "--output-format", "terse", "--harness", harness]
+          ["-Z", "concrete-playback", "--concrete-playback=print", "--output-format", "terse", "--harness", harness]
     rc, out, wall = sh(cmd, cwd=ws, timeout=timeout)
-    m = re.search(r"- (kani_concrete_playback_\w+)\.", out)
+    m = None
+    for blk in re.finditer(r"/// Check for `(\w+)`: ([^\n]*)\n\s*(#\[test\]\s*\n\s*fn (kani_concrete_playback_\w+)\(\) \{.*?\n\s*kani::concrete_playback_run\([^\n]*\n\s*\})", out, re.S):
+        if blk.group(1) != "cover":
+            m = blk
+            break
     if not m:
         info["note"] = "kani produced no concrete playback test (e.g. contract harness or stubbed code)"
         info["kani_output_tail"] = out[-1500:]
         return info
-    tname = m.group(1)
+    info["check"] = m.group(1) + ": " + m.group(2)
+    test_src, tname = m.group(3), m.group(4)
     info["generated_test"] = tname
-    # pull the generated test text out of the modified source
-    for path in glob.glob(os.path.join(ws, "source", "**", "*.rs"), recursive=True):
+    info["generated_test_src"] = test_src
+    vals = re.findall(r"//\s*(.*)\n\s*vec!\[([^\]]*)\]", test_src)
+    info["concrete_values"] = [{"interp": v[0].strip(), "bytes": [int(x) for x in v[1].split(",") if x.strip()]} for v in vals]
+    # splice into the harness module (its file text ends with the module's closing brace)
+    short = harness.split("::")[-2] if "::" in harness else None
+    placed = False
+    for ms in modspecs:
+        target, src = kani_mod_path(ms)
+        if short and not ms.endswith("::" + short):
+            continue
+        path = os.path.join(ws, "source", target)
         txt = open(path).read()
-        k = txt.find("fn " + tname)
-        if k >= 0:
-            a = txt.rfind("#[test]", 0, k)
-            b = txt.find("\n}", k)
-            info["generated_test_src"] = txt[a:b + 2]
-            info["generated_test_file"] = os.path.relpath(path, ws)
-            vals = re.findall(r"//\s*(.*)\n\s*vec!\[([^\]]*)\]", txt[a:b])
-            info["concrete_values"] = [{"interp": v[0].strip(), "bytes": [int(x) for x in v[1].split(",") if x.strip()]} for v in vals]
-            break
-    cmd = ["cargo", "kani", "playback", "-p", pkg] + (["--features", features] if features else []) + \
+        modtxt = open(src).read().rstrip()
+        k = txt.rfind(modtxt)
+        if k < 0 or not modtxt.endswith("}"):
+            continue
+        end = k + len(modtxt) - 1
+        txt = txt[:end] + "\n" + test_src + "\n" + txt[end:]
+        open(path, "w").write(txt)
+        info["generated_test_file"] = "source/" + target
+        placed = True
+        break
+    if not placed:
+        info["note"] = "could not place the playback test next to harness " + harness
+        return info
+    cmd = ["cargo", "kani", "playback", "-p", pkg, "--lib"] + (["--features", features] if features else []) + \
           ["-Z", "concrete-playback", "--", tname]
     rc, out, wall = sh(cmd, cwd=ws, timeout=timeout, env={"RUST_BACKTRACE": "0"})
-    keep = [l for l in out.splitlines() if not re.match(r"^(warning|\s*\||\s*=|\s*-->|\s*$)", l)]
-    info["native_replay"] = {"rc": rc, "reproduced": ("test result: FAILED" in out), "output_tail": "\n".join(keep[-25:])}
+    keep = [l for l in out.splitlines() if not re.match(r"^(warning|\s*\||\s*=|\s*-->|\s*$|\s*\d+ \|)", l)]
+    info["native_replay"] = {"rc": rc, "reproduced": ("test result: FAILED" in out and "panicked at" in out), "output_tail": "\n".join(keep[-25:])}
     return info
 
 
